@@ -504,6 +504,50 @@ func (g *apuGenSt) lengthCase(ch, t int, le bool, odd bool, enableLater bool) {
 	g.p.c.class(fmt.Sprintf("lencase/ch%d/t%02x/le%v/odd%v/later%v/%s", ch, t, le, odd, enableLater, nr52))
 }
 
+// the trigger write placed ON and around the machine cycle in which the frame sequencer clocks the lengths (and at the
+// other step boundaries): with three length clocks left the channel must go off after exactly three more
+func (g *apuGenSt) lengthEdgeCase(ch, pre int) {
+	g.reset(3)
+	nrx1 := []int{0xff11, 0xff16, 0xff1b, 0xff20}[ch-1]
+	nrx2 := []int{0xff12, 0xff17, 0xff1a, 0xff21}[ch-1]
+	nrx4 := []int{0xff14, 0xff19, 0xff1e, 0xff23}[ch-1]
+	dac, full := 0xf0, 64
+	if ch == 3 {
+		dac, full = 0x80, 256
+	}
+	g.w(nrx2, dac)
+	g.w(nrx1, full-3)
+	g.c(pre)
+	nr52 := g.w(nrx4, 0xc0)
+	trace := ""
+	for j := 0; j < 40; j++ {
+		o := g.c(512)
+		b := nr52
+		nr52 = o[:2]
+		g.statusClass(fmt.Sprintf("lenedge/ch%d/%d", ch, j), b, nr52)
+		trace += nr52[1:2]
+	}
+	g.p.c.class(fmt.Sprintf("lenedge/ch%d/%d/%s", ch, pre, trace))
+}
+
+// a channel whose envelope has faded to zero is triggered again WITHOUT rewriting NRx2: the DAC is still on, so the
+// status bit must come on again
+func (g *apuGenSt) fadeRetriggerCase(ch, nrx2v int) {
+	g.reset(3)
+	nrx2 := []int{0xff12, 0xff17, 0, 0xff21}[ch-1]
+	nrx4 := []int{0xff14, 0xff19, 0, 0xff23}[ch-1]
+	g.w(nrx2, nrx2v)
+	g.w(nrx4, 0x80)
+	vol, per := nrx2v>>4, nrx2v&7
+	g.c(16384*(vol*per+2) + g.p.c.rng.intn(5000))
+	g.r(0xff26)
+	g.r(nrx2)
+	after := g.w(nrx4, 0x80)
+	g.c(3000)
+	g.r(0xff26)
+	g.p.c.class(fmt.Sprintf("faderetrig/ch%d/%02x/%s", ch, nrx2v, after))
+}
+
 // directed retrigger test (C19): let the length counter expire, then trigger again with length
 // still enabled in the first (odd) or second (even) half of a frame-sequencer period: the expired
 // counter is reloaded with 64/256, less one in the first half; observed through the expiry time
@@ -735,6 +779,73 @@ func apuGen(c *ctx) {
 		}
 	}
 
+	// ---- C18: read-back stays put while the channels PLAY: envelopes run into their end stops, the sweep shifts the
+	// frequency, length counters expire - every register is read again after each envelope period for 20 periods
+	if is("C18") {
+		nLive := 12
+		if c.thorough() {
+			nLive = 200
+		}
+		for k := 0; k < nLive; k++ {
+			g.reset(0)
+			g.w(0xff24, int(c.rng.byte()))
+			g.w(0xff25, int(c.rng.byte()))
+			env := func() int { // envelope byte with a short period, either direction, DAC on
+				return (1+c.rng.intn(15))<<4 | c.rng.intn(2)<<3 | (1 + c.rng.intn(3))
+			}
+			g.w(0xff10, c.rng.intn(0x80))
+			g.w(0xff11, int(c.rng.byte()))
+			g.w(0xff12, env())
+			g.w(0xff13, int(c.rng.byte()))
+			g.w(0xff14, 0x80|c.rng.intn(2)<<6|c.rng.intn(8))
+			g.w(0xff16, int(c.rng.byte()))
+			g.w(0xff17, env())
+			g.w(0xff18, int(c.rng.byte()))
+			g.w(0xff19, 0x80|c.rng.intn(2)<<6|c.rng.intn(8))
+			g.w(0xff1a, 0x80)
+			g.w(0xff1b, int(c.rng.byte()))
+			g.w(0xff1c, c.rng.intn(4)<<5)
+			g.w(0xff1d, int(c.rng.byte()))
+			g.w(0xff1e, 0x80|c.rng.intn(2)<<6|c.rng.intn(8))
+			g.w(0xff20, int(c.rng.byte()))
+			g.w(0xff21, env())
+			g.w(0xff22, int(c.rng.byte()))
+			g.w(0xff23, 0x80|c.rng.intn(2)<<6)
+			for j := 0; j < 20; j++ {
+				g.c(16384)
+				for a := 0xff10; a <= 0xff26; a++ {
+					g.r(a)
+				}
+			}
+			c.class(fmt.Sprintf("live-readback/%d", k))
+		}
+		// NRx4 written with the length-enable bit in every frame-sequencer phase with the counter at 1, 2 and full:
+		// the read-back shows the bit just written whatever the extra length clock did
+		for ch := 1; ch <= 4; ch++ {
+			nrx1 := []int{0xff11, 0xff16, 0xff1b, 0xff20}[ch-1]
+			nrx4 := []int{0xff14, 0xff19, 0xff1e, 0xff23}[ch-1]
+			full := 64
+			if ch == 3 {
+				full = 256
+			}
+			for _, left := range []int{1, 2, 0} {
+				for _, phase := range []int{0, 1000, 2047, 2048, 3000, 4095, 4096, 6144} {
+					for _, v := range []int{0x40, 0xc0, 0x00} {
+						g.reset(0)
+						if ch == 3 {
+							g.w(0xff1a, 0x80)
+						}
+						g.w(nrx1, (full-left)&(full-1))
+						g.c(phase)
+						g.w(nrx4, v)
+						g.r(nrx4)
+						g.r(0xff26)
+					}
+				}
+			}
+		}
+	}
+
 	// ---- C19: directed length cases
 	if is("C19") {
 		n := 0
@@ -766,6 +877,18 @@ func apuGen(c *ctx) {
 			g.retriggerCase(ch, false)
 		}
 		c.notes["retrigger_cases"] = 8
+		for ch := 1; ch <= 4; ch++ {
+			for _, base := range []int{2048, 4096, 6144, 8192, 16384} {
+				for d := -3; d <= 2; d++ {
+					g.lengthEdgeCase(ch, base+d)
+				}
+			}
+			if ch != 3 {
+				for _, v := range []int{0x11, 0x19, 0x23, 0x37, 0x10, 0x52} {
+					g.fadeRetriggerCase(ch, v)
+				}
+			}
+		}
 	}
 
 	// ---- C20: pacing over more than two emulated seconds (crosses tick 2*4194304), and the uint64 wrap
